@@ -6,6 +6,7 @@ open Bool
 open Datatypes
 open Json
 open List
+open NodeInd
 open Options
 open OutViews
 open Plain
@@ -211,7 +212,8 @@ let env_of c =
 let model_run c =
   let e = env_of c in
   let (out, s) =
-    transform_module e (hook_call e) (hook_declarator e) (register_ts_decl e)
+    transform_module e (hook_call e) (hook_declarator e)
+      (collect_ts_decls e subs)
       (dec
         (jfield_d (String ((Ascii (true, false, false, true, false, true,
           true, false)), (String ((Ascii (false, true, true, true, false,
